@@ -495,14 +495,87 @@ def apply_renames(data):
     return data
 
 
+_FIELD_NAMES = None
+
+
+def apply_field_renames(data):
+    """Same idea for named struct / variant fields (tables/field_names.json): a recorded field that is missing from its
+    type while exactly one *new* field of that type/variant has the recorded type is the renamed field; it is rewritten to
+    the recorded name in MIR projections, aggregates, HIR field expressions, struct literals and patterns. Skipped when
+    the new name is also a field name of another local type (the rewrite is by name)."""
+    global _FIELD_NAMES
+    if _FIELD_NAMES is None:
+        p = os.path.join(VERIF, "tables", "field_names.json")
+        _FIELD_NAMES = json.load(open(p)) if os.path.exists(p) else {}
+    table = _FIELD_NAMES
+    data["_field_renames"] = {}
+    if not table:
+        return data
+    all_names = {}
+    for path, a in data["adts"].items():
+        for v in a.get("variants", []):
+            for f in v.get("fields", []):
+                all_names.setdefault(f["name"], set()).add(path)
+    alias = {}
+    for path, variants in table.items():
+        a = data["adts"].get(path)
+        if not a:
+            continue
+        for v in a.get("variants", []):
+            rec = variants.get(v["name"])
+            if not rec:
+                continue
+            cur = [(f["name"], f["ty"]) for f in v.get("fields", [])]
+            cur_names = {n for n, _ in cur}
+            rec_names = {n for n, _ in rec}
+            missing = [(n, t) for n, t in rec if n not in cur_names]
+            new = [(n, t) for n, t in cur if n not in rec_names]
+            for n, t in missing:
+                cands = [x for x, tx in new if tx == t]
+                rivals = [x for x, tx in missing if tx == t]
+                if len(cands) == 1 and len(rivals) == 1 and all_names.get(cands[0], set()) == {path} and cands[0] not in alias:
+                    alias[cands[0]] = n
+    if not alias:
+        return data
+
+    def walk(x):
+        if isinstance(x, dict):
+            if "f" in x and "i" in x and x["f"] in alias:
+                x["f"] = alias[x["f"]]
+            if x.get("k") == "field" and x.get("name") in alias:
+                x["name"] = alias[x["name"]]
+            if x.get("k") in ("struct", "agg") and isinstance(x.get("fields"), list):
+                nf = []
+                for e in x["fields"]:
+                    if isinstance(e, list) and e and isinstance(e[0], str) and e[0] in alias:
+                        e = [alias[e[0]]] + e[1:]
+                    elif isinstance(e, str) and e in alias:
+                        e = alias[e]
+                    nf.append(e)
+                x["fields"] = nf
+            if "name" in x and "ty" in x and "public" in x and x["name"] in alias:
+                x["name"] = alias[x["name"]]
+            for v in x.values():
+                walk(v)
+        elif isinstance(x, list):
+            for v in x:
+                walk(v)
+    walk(data)
+    data["_field_renames"] = dict(alias)
+    return data
+
+
 class Facts:
     def __init__(self, data):
         if data.get("config") == "alloc" and not data.get("_std_paths"):
             data = std_paths(data)
         if "_renames" not in data:
             data = apply_renames(data)
+        if "_field_renames" not in data:
+            data = apply_field_renames(data)
         self.data = data
-        self.renames = data.get("_renames", {})
+        self.renames = dict(data.get("_renames", {}))
+        self.renames.update({"field " + k: "field " + v for k, v in data.get("_field_renames", {}).items()})
         self.config = data["config"]
         self.fns = data["fns"]
         self.hir = data["hir"]
